@@ -226,6 +226,151 @@ def lowered_root(fn, x_use, expr):
     return True
 
 
+class CdbHooks(QHooks):
+    def __init__(self):
+        self.ends = []
+        self.nalloc = 0
+
+    def tracked_global(self, path):
+        return True
+
+    def precise_arith(self, path):
+        return True
+
+    def prim_alloc(self, E, x, args):
+        self.nalloc += 1
+        return [Outcome(ret=fs(('&', 'NEW%d[0]' % g1(E, '$alloc', 0))), sets={'$alloc': fs(g1(E, '$alloc', 0) + 1)})]
+
+    prim_malloc = prim_alloc
+
+    def prim_cdbmake_pack(self, E, x, args):
+        return [Outcome(ret=TOP)]
+
+    def on_return(self, E, fn, val):
+        if fn.name == self.entry:
+            self.ends.append((dict(E.store), val))
+
+
+def cdb_order_sites(db, rep):
+    """first duplicate wins: explored.  (1) cdbmake_add on a full chunk: where does the new chunk go in the list;
+    (2) cdbmake_split on two chunks built in that orientation: records of one bucket come out in source order;
+    (3) cdbmake_throw: records with the same hash get increasing probe positions in source order."""
+    prog = db.program('qmail-newu')
+    add, split, throw = db.fn('cdbmake_add.c', 'cdbmake_add'), db.fn('cdbmake_add.c', 'cdbmake_split'), db.fn('cdbmake_add.c', 'cdbmake_throw')
+    full = db.unit('cdbmake_add.c').macro_int('CDBMAKE_HPLIST')
+    if full is None:
+        raise AnalysisBroken('CDBMAKE_HPLIST not found')
+    out = {}
+
+    def one(v):
+        return next(iter(v)) if v is not None and v is not TOP and len(v) == 1 else None
+    # (1) a record added when the newest chunk is full
+    H = CdbHooks()
+    H.entry = 'cdbmake_add'
+    e = Engine(db, prog, H)
+    fid = e.frame_id(add)
+    e.run(add, {'%s::%s' % (fid, add.params[0]): fs(('&', 'CDBM')), '%s::%s' % (fid, add.params[1]): fs(0x705), '%s::%s' % (fid, add.params[2]): fs(99),
+                'CDBM.head': fs(('&', 'OLD')), 'OLD.num': fs(full), 'OLD.next': fs(0), 'CDBM.numentries': fs(full)})
+    rep.count_states(e.states, e.transitions)
+    ends = [st for st, v in H.ends if v == fs(1)]
+    if len(ends) != 1:
+        raise AnalysisBroken('cdbmake_add: %d successful ends on a full chunk' % len(ends))
+    st = ends[0]
+    head = one(st.get('CDBM.head'))
+    newc = ('&', 'NEW0[0]')
+    if head == newc and one(st.get('NEW0[0].next')) == ('&', 'OLD'):
+        orient = 'newest-first'
+    elif head == ('&', 'OLD') and one(st.get('OLD.next')) == newc and one(st.get('NEW0[0].next')) in (0, None):
+        orient = 'oldest-first'
+    else:
+        orient = None
+    okadd = orient is not None and one(st.get('NEW0[0].hp[0].h')) == 0x705 and one(st.get('NEW0[0].hp[0].p')) == 99 and one(st.get('NEW0[0].num')) == 1 and one(st.get('CDBM.numentries')) == full + 1
+    out['add:new-chunk-linked-and-record-stored'] = (okadd, 'cdbmake_add.c:cdbmake_add', 'after adding to a full chunk: head=%s NEW.next=%s NEW.hp[0]=(%s,%s) num=%s' %
+                                                    (head, one(st.get('NEW0[0].next')), one(st.get('NEW0[0].hp[0].h')), one(st.get('NEW0[0].hp[0].p')), one(st.get('NEW0[0].num'))), [])
+    if not okadd:
+        return out
+    # (1b) a record added to a chunk with room goes behind the ones already there
+    H = CdbHooks()
+    H.entry = 'cdbmake_add'
+    e = Engine(db, prog, H)
+    e.run(add, {'%s::%s' % (fid, add.params[0]): fs(('&', 'CDBM')), '%s::%s' % (fid, add.params[1]): fs(0x705), '%s::%s' % (fid, add.params[2]): fs(99),
+                'CDBM.head': fs(('&', 'OLD')), 'OLD.num': fs(2), 'OLD.next': fs(0), 'CDBM.numentries': fs(2), 'OLD.hp[0].h': fs(1), 'OLD.hp[0].p': fs(11), 'OLD.hp[1].h': fs(2), 'OLD.hp[1].p': fs(12)})
+    ends = [st_ for st_, v in H.ends if v == fs(1)]
+    okroom = len(ends) == 1 and one(ends[0].get('OLD.hp[2].p')) == 99 and one(ends[0].get('OLD.hp[0].p')) == 11 and one(ends[0].get('OLD.hp[1].p')) == 12 and one(ends[0].get('OLD.num')) == 3
+    out['add:record-appended-within-its-chunk'] = (okroom, 'cdbmake_add.c:cdbmake_add', 'a record added to a chunk holding 2 records must become its third', [])
+    # (2) split: source order r0 r1 (older chunk A), r2 r3 (newer chunk B); r0, r1, r2 share bucket 5, r0 and r2 have the same hash
+    recs = [(0x705, 10), (0x905, 11), (0x705, 12), (0x806, 13)]
+    st0 = {'%s::%s' % (e.frame_id(split), split.params[0]): fs(('&', 'CDBM')), 'CDBM.numentries': fs(4),
+           'A.num': fs(2), 'B.num': fs(2)}
+    for k, (h, p_) in enumerate(recs):
+        ch, idx = ('A', k) if k < 2 else ('B', k - 2)
+        st0['%s.hp[%d].h' % (ch, idx)] = fs(h)
+        st0['%s.hp[%d].p' % (ch, idx)] = fs(p_)
+    if orient == 'newest-first':
+        st0.update({'CDBM.head': fs(('&', 'B')), 'B.next': fs(('&', 'A')), 'A.next': fs(0)})
+    else:
+        st0.update({'CDBM.head': fs(('&', 'A')), 'A.next': fs(('&', 'B')), 'B.next': fs(0)})
+    H = CdbHooks()
+    H.entry = 'cdbmake_split'
+    e = Engine(db, prog, H, max_states=2000000)
+    e.run(split, st0)
+    rep.count_states(e.states, e.transitions)
+    ends = [st_ for st_, v in H.ends if v == fs(1)]
+    if len(ends) != 1:
+        raise AnalysisBroken('cdbmake_split: %d successful ends' % len(ends))
+    st = ends[0]
+    sp = one(st.get('CDBM.split'))
+    s5, c5 = one(st.get('CDBM.start[5]')), one(st.get('CDBM.count[5]'))
+    base = sp[1][:sp[1].index('[')] if isinstance(sp, tuple) else None
+    order = [one(st.get('%s[%d].p' % (base, s5 + k))) for k in range(c5)] if base and isinstance(s5, int) and isinstance(c5, int) and 0 <= c5 < 8 else None
+    out['split:records-of-a-bucket-come-out-in-source-order'] = (order == [10, 11, 12], 'cdbmake_add.c:cdbmake_split',
+        'chunk list %s; the three records of bucket 5 (source order 10, 11, 12) are laid out as %s: with duplicates of a key in reverse order the LAST users/assign line would win' % (orient, order), [])
+    hashp = one(st.get('CDBM.hash'))
+    out['split:hash-area-behind-the-records'] = (hashp == ('&', '%s[4]' % base) if base else False, 'cdbmake_add.c:cdbmake_split', 'hash area at %s for 4 records' % (hashp,), [])
+    if order != [10, 11, 12]:
+        return out
+    # (3) throw bucket 5: slots of the two records with hash 0x705 in probe order
+    H = CdbHooks()
+    H.entry = 'cdbmake_throw'
+    e = Engine(db, prog, H, max_states=2000000)
+    fidt = e.frame_id(throw)
+    st1 = {k: v for k, v in st.items() if not k.startswith('$') and '::' not in k}
+    st1.update({'%s::%s' % (fidt, throw.params[0]): fs(('&', 'CDBM')), '%s::%s' % (fidt, throw.params[1]): fs(4096), '%s::%s' % (fidt, throw.params[2]): fs(5)})
+    e.run(throw, st1)
+    rep.count_states(e.states, e.transitions)
+    if len(H.ends) != 1:
+        raise AnalysisBroken('cdbmake_throw: %d ends' % len(H.ends))
+    st2, ret = H.ends[0]
+    ln = one(ret)
+    slots = {}
+    if isinstance(ln, int) and 0 < ln < 32:
+        hb = one(st2.get('CDBM.hash'))
+        hbase, hoff = hb[1][:hb[1].index('[')], int(hb[1][hb[1].index('[') + 1:-1])
+        for k in range(ln):
+            p_ = one(st2.get('%s[%d].p' % (hbase, hoff + k)))
+            if p_:
+                slots[p_] = k
+    startpos = (0x705 >> 8) % ln if isinstance(ln, int) and ln else None
+    okthrow = ln == 6 and set(slots) == {10, 11, 12} and ((slots[10] - startpos) % ln) < ((slots[12] - startpos) % ln)
+    # every record must be met by a reader that probes forward from its start slot and stops at the first empty slot
+    unreachable = []
+    if okthrow:
+        occupied = set(slots.values())
+        for h_, p_ in recs[:3]:
+            k = (h_ >> 8) % ln
+            steps = 0
+            while k in occupied and k != slots[p_] and steps < ln:
+                k = (k + 1) % ln
+                steps += 1
+            if k != slots[p_]:
+                unreachable.append(p_)
+        okthrow = not unreachable
+    out['throw:same-hash-records-get-probe-positions-in-source-order'] = (okthrow, 'cdbmake_add.c:cdbmake_throw',
+        'bucket of 3 records -> table length %s, slots by record %s, probing for hash 0x705 starts at %s: the first source line must be met first, and every record must be reachable by probing forward without crossing an empty slot (unreachable: %s)' % (ln, slots, startpos, unreachable), [])
+    return out
+
+
+
 def run(ctx):
     db, rep = ctx.db, ctx.report
     pl = db.program('qmail-lspawn')
@@ -504,45 +649,13 @@ def run(ctx):
     r5.expect_min(4)
     # ---------------------------------------------------------------- 6. first duplicate wins (orientation agreement)
     r6 = rep.rule('C11.6-duplicate-order', 'R-SIBLING', 'records reach each hash bucket oldest first: chunk-list order (cdbmake_add), within-chunk traversal and fill direction (cdbmake_split) agree; writer and reader probe forward, so the first source line is the one found')
-    ca = db.fn('cdbmake_add.c', 'cdbmake_add')
-    prepend = any(x.k == 'asg' and x.args[0].src().endswith('head->next') and x.args[1].src().endswith('cdbm->head') for x in ca.all_x()) and \
-        any(x.k == 'asg' and x.args[0].src().endswith('cdbm->head') and x.args[1].src() == 'head' for x in ca.all_x())
-    append_idx = any(x.k == 'asg' and 'hp[head->num]' in x.args[0].src() for x in ca.all_x())
-    if not append_idx:
-        raise AnalysisBroken('cdbmake_add: cannot determine how a record is placed in its chunk')
-    spf = db.fn('cdbmake_add.c', 'cdbmake_split')
-    fills = [x for x in spf.all_x() if x.k == 'asg' and x.op == '=' and 'split[' in x.args[0].src() and 'hp[' in x.args[1].src()]
-    if len(fills) != 1:
-        raise AnalysisBroken('cdbmake_split: bucket fill statement not found')
-    fill = fills[0]
-    lhs_ops = [y.op for y in fill.args[0].walk() if y.k == 'un' and y.op in ('pre--', 'post--', 'pre++', 'post++')]
-    backward = lhs_ops == ['pre--']
-    forward = lhs_ops == ['post++']
-    ivar = None
-    for y in fill.args[1].walk():
-        if y.k == 'idx' and y.args[1].var:
-            ivar = y.args[1].var
-    fb = spf.pos[fill.id][0]
-    dirs = set()
-    for y in spf.all_x():
-        if y.k == 'un' and y.op in ('pre--', 'post--', 'pre++', 'post++') and y.args[0].var == ivar:
-            yb = spf.pos[y.id][0]
-            if (yb == fb or (spf.can_reach(fb, yb) and spf.can_reach(yb, fb))):
-                dirs.add('desc' if '--' in y.op else 'asc')
-    starts_from_head = any(x.k == 'asg' and x.args[1].src().endswith('cdbm->head') for x in spf.all_x())
-    if len(dirs) != 1 or not (backward or forward) or not starts_from_head:
-        raise AnalysisBroken('cdbmake_split: traversal/fill direction cannot be determined (dirs=%s, lhs ops=%s)' % (sorted(dirs), lhs_ops))
-    within_desc = dirs == {'desc'}
-    ok = (prepend and within_desc and backward) or (not prepend and not within_desc and forward)
-    r6.check(ok, 'bucket-order-is-source-order', fill.where,
-             'chunk list %s, records in a chunk traversed %s, bucket filled %s: duplicates of a key end up in reverse source order, so the LAST users/assign line would win' %
-             ('newest first' if prepend else 'oldest first', 'newest first' if within_desc else 'oldest first', 'backwards' if backward else 'forwards'))
-    th = db.fn('cdbmake_add.c', 'cdbmake_throw')
-    fwd_w = any(y.k == 'un' and y.op == 'post++' and y.args[0].var and y.args[0].var.startswith('L:hp') for y in th.all_x()) and \
-        any(y.k == 'un' and y.op == 'pre++' and (y.args[0].var or '').startswith('L:where') for y in th.all_x())
+    for inst, v in sorted(cdb_order_sites(db, rep).items()):
+        r6.check(v[0], inst, v[1], v[2], v[3])
     cs = db.fn('cdb_seek.c', 'cdb_seek')
-    fwd_r = any(y.k == 'un' and y.op == 'pre++' and (y.args[0].var or '').startswith('L:h2') for y in cs.all_x())
-    r6.check(fwd_w and fwd_r, 'writer-and-reader-probe-forward', 'cdbmake_add.c/cdb_seek.c', 'slot probing direction: writer forward=%s reader forward=%s' % (fwd_w, fwd_r))
-    r6.expect_min(2)
+    fwd_r = any(y.k == 'un' and y.op in ('pre++', 'post++') and (y.args[0].var or '')[:2] == 'L:' for y in cs.all_x()) or \
+        any(y.k == 'asg' and y.op == '+=' and (y.args[0].var or '')[:2] == 'L:' for y in cs.all_x())
+    wraps = any(y.k == 'asg' and y.op == '=' and y.args[1].const == 0 and (y.args[0].var or '')[:2] == 'L:' for y in cs.all_x())
+    r6.check(fwd_r and wraps, 'reader-probes-forward-with-wrap-around', 'cdb_seek.c', 'cdb_seek must step to the next slot and wrap to slot 0 (the writer places later duplicates in later probe positions)')
+    r6.expect_min(5)
     rep.assume('behaviour on corrupted cdb content beyond the error-exit rule behaviour on corrupted cdb content beyond the error-exit rule and getpwnam are not decided',
                'fixed geometry for the lookup order: the loop compares i only with 1 and tests one byte for membership')
